@@ -67,6 +67,7 @@ static std::string status_line(const Grid& g) {
   // divisor of the first point of gen_sys, when the generators are up to date (read from the dump:
   // no observer is called, so the lazy state is not disturbed)
   std::string div = "?";
+  std::string row0 = "?";     // kind of the first generator row (P, Q or L)
   int zero_lines = 0, zero_params = 0;
   size_t gpos = all.find("gen_sys (up-to-date)");
   if (gpos != std::string::npos) {
@@ -76,6 +77,7 @@ static std::string status_line(const Grid& g) {
       if (r == std::string::npos) break;
       size_t e = all.find('\n', r);
       std::string row = all.substr(r, e - r);
+      if (!row.empty() && row0 == "?") row0 = std::string(1, row.back());
       if (!row.empty() && row.back() == 'P' && div == "?") {
         std::istringstream is(row); std::string w, sz, d; is >> w >> sz >> d; div = d;
       }
@@ -95,7 +97,7 @@ static std::string status_line(const Grid& g) {
       q = e;
     }
   }
-  return o + " div=" + div + " zl=" + std::to_string(zero_lines) + " zq=" + std::to_string(zero_params);
+  return o + " div=" + div + " zl=" + std::to_string(zero_lines) + " zq=" + std::to_string(zero_params) + " r0=" + row0;
 }
 
 // ---------------------------------------------------------------------------------- random data
@@ -153,15 +155,19 @@ struct Gen {
       return grid_line(e);
     }
   }
+  // rows in arbitrary order: the point, if one is required, is not necessarily the first row
   Grid_Generator_System gens(dimension_type n, unsigned max, bool need_point) {
-    Grid_Generator_System gs(n);
-    if (need_point) gs.insert(gen(n, 2));
+    std::vector<GG> rows;
+    if (need_point) rows.push_back(gen(n, 2));
     unsigned k = R.below(max + 1);
     for (unsigned i = 0; i < k; ++i) {
       unsigned t = R.below(10);
       int kind = n == 0 ? 2 : (t < 4 ? 2 : (t < 8 ? 1 : 0));
-      gs.insert(gen(n, kind));
+      rows.push_back(gen(n, kind));
     }
+    for (size_t i = rows.size(); i > 1; --i) std::swap(rows[i - 1], rows[R.below(i)]);
+    Grid_Generator_System gs(n);
+    for (size_t i = 0; i < rows.size(); ++i) gs.insert(rows[i]);
     return gs;
   }
 };
@@ -210,6 +216,8 @@ struct Hist {
       guarded([&] { slot[s].reset(new Grid(gs)); });
     }
     if (!slot[s]) { op(s, "new_univ " + std::to_string(n)); slot[s].reset(new Grid(n)); }
+    // sometimes query the new grid at once, before anything minimizes its description
+    if (R.chance(1, 2)) observe_query(s);
   }
 
   std::string expr_str(const Linear_Expression& e, dimension_type n) {
